@@ -134,7 +134,19 @@ class RecDevice(nfc.clf.device.Device):
     # ------------------------------------------------------------ recording
     def _enter(self, method, *args):
         clf = self.clf
+        helpers = HELPERS[0]
+        if helpers is not None and not helpers.running:
+            # helper threads (threading.Timer / Thread objects the frontend
+            # started) run while this driver call is in progress
+            helpers.fire(self, "during:" + method)
         locked = bool(clf is not None and lock_held_by_caller(clf.lock))
+        if helpers is not None and helpers.running:
+            # a call made BY a helper thread: the calling thread holds the
+            # lock only if it took it itself
+            locked = locked and helpers.took_lock
+            self.helper_thread = True
+        else:
+            self.helper_thread = False
         current = bool(clf is not None and clf.device is self)
         self.lock_owner = frontend_lock_owner(clf) if clf is not None else None
         fn, line, chain = clf_site()
@@ -757,6 +769,86 @@ class SlotEnv(Env):
 # ----------------------------------------------------------------------------
 # frontend construction
 # ----------------------------------------------------------------------------
+HELPERS = [None]        # HelperThreads installed as nfc.clf.threading (or None)
+
+
+class HelperThreads(object):
+    """stands in for the `threading` module inside nfc.clf: Lock etc. are the
+    real ones; Timer and Thread objects are recorded instead of started.  A
+    recorded helper runs (in the harness's only thread, marked as a foreign
+    thread) when the next driver call is in progress - the moment another
+    thread's driver call would overlap - and, if it was not cancelled, once
+    more at the end of the scenario (a timer that fires late)."""
+
+    def __init__(self, real):
+        self._real = real
+        self.pending = []       # [fn, args, cancelled]
+        self.running = False
+        self.took_lock = False
+        self.fired = 0
+
+    def __getattr__(self, name):
+        return getattr(self._real, name)
+
+    def _make(self, fn, args, kwargs):
+        rec = [fn, tuple(args or ()), dict(kwargs or {}), False]
+        owner = self
+
+        class Handle(object):
+            daemon = True
+
+            def start(self):
+                owner.pending.append(rec)
+
+            def cancel(self):
+                rec[3] = True       # (a callback that already runs is not stopped)
+
+            def join(self, timeout=None):
+                pass
+
+            def is_alive(self):
+                return rec in owner.pending
+
+            def setDaemon(self, v):
+                pass
+        return Handle()
+
+    def Timer(self, interval, function, args=None, kwargs=None):
+        return self._make(function, args, kwargs)
+
+    def Thread(self, group=None, target=None, name=None, args=(), kwargs=None, daemon=None):
+        return self._make(target, args, kwargs)
+
+    def fire(self, dev, when):
+        todo, self.pending = [r for r in self.pending if not r[3]], []
+        for fn, args, kwargs, _ in todo:
+            self.running = True
+            self.fired += 1
+            try:
+                fn(*args, **kwargs)
+            except WouldBlock:
+                pass                # it waits for the frontend lock: correct
+            except Exception:
+                pass
+            finally:
+                self.running = False
+
+
+def install_helper_threads():
+    """nfc.clf.threading := HelperThreads (both modes); undone by the caller"""
+    import threading as real
+    h = HelperThreads(real)
+    HELPERS[0] = h
+    nfc.clf.threading = h
+    return h
+
+
+def remove_helper_threads():
+    import threading as real
+    HELPERS[0] = None
+    nfc.clf.threading = real
+
+
 class GuardLock(object):
     """clf.lock with an owner tag and a deadlock detector.  Same interface and
     semantics as the threading.Lock it wraps.  The harness is single
